@@ -1,4 +1,511 @@
 package main
 
-// c11E2E is replaced below by the end-to-end driver (thorough tier).
-func c11E2E(args []string) {}
+// End-to-end tier of C11: real mrp pipestances whose mapped calls range over
+// adversarial key sets, array lengths and nestings; each must complete and
+// return exactly the expected keys / values.
+//
+//	vh c11 e2e <dir with bin/mrp, bin/mrjob, adapters, jobmanagers> <seed> <n>
+//
+// prints one line per pipestance:  E2E ok <name>   or
+// E2E <class> <hex of the mro source> <detail>
+
+import (
+	"context"
+	"net/url"
+	"encoding/json"
+	"fmt"
+	"os"
+	"os/exec"
+	"path/filepath"
+	"reflect"
+	"sort"
+	"strconv"
+	"strings"
+	"time"
+	"unicode/utf8"
+
+	"verifharness/internal/hx"
+)
+
+const c11StageDefs = `
+stage ECHO(
+    in  string what,
+    out string result,
+    src py     "stages/echo",
+)
+
+stage CHUNKY(
+    in  string what,
+    in  int    n,
+    out string result,
+    src py     "stages/chunky",
+) split (
+    in  int    i,
+    out string piece,
+)
+
+stage PAIR(
+    in  string a,
+    in  string b,
+    out string result,
+    src py     "stages/pair",
+)
+
+stage GENMAP(
+    in  string[]    keys,
+    out map<string> m,
+    src py          "stages/genmap",
+)
+
+stage GENARR(
+    in  int      n,
+    out string[] a,
+    src py       "stages/genarr",
+)
+`
+
+var c11StageCode = map[string]string{
+	"echo": "def main(args, outs):\n    outs.result = args.what\n",
+	"chunky": "def split(args):\n    return {'chunks': [{'i': i} for i in range(args.n)]}\n\n" +
+		"def main(args, outs):\n    outs.piece = '%s#%d' % (args.what, args.i)\n\n" +
+		"def join(args, outs, chunk_defs, chunk_outs):\n" +
+		"    ok = all(c.piece == '%s#%d' % (args.what, i) for i, c in enumerate(chunk_outs))\n" +
+		"    outs.result = args.what if ok and len(chunk_outs) == args.n else 'BAD'\n",
+	"pair":   "def main(args, outs):\n    outs.result = args.a + '|' + args.b\n",
+	"genmap": "def main(args, outs):\n    outs.m = dict((k, 'v:' + k) for k in args.keys)\n",
+	"genarr": "def main(args, outs):\n    outs.a = ['e%d' % i for i in range(args.n)]\n",
+}
+
+func mroString(s string) string {
+	b, _ := json.Marshal(s)
+	// json.Marshal escapes <, >, & and U+2028/9 as \uXXXX, which the mro
+	// parser accepts; everything else is plain JSON string syntax.
+	return string(b)
+}
+
+func mroMap(keys []string, val func(k string) string) string {
+	var b strings.Builder
+	b.WriteString("{\n")
+	for _, k := range keys {
+		fmt.Fprintf(&b, "        %s: %s,\n", mroString(k), val(k))
+	}
+	b.WriteString("    }")
+	return b.String()
+}
+
+// keys usable in mro source and as JSON object keys: valid UTF-8, no NUL
+func c11E2EKeys(r *hx.Rng, n int) []string {
+	seen := map[string]bool{}
+	var ks []string
+	for tries := 0; len(ks) < n && tries < 200; tries++ {
+		k := c11RandKey(r)
+		if !utf8.ValidString(k) || strings.ContainsRune(k, 0) || len(k) > 12 || seen[k] {
+			continue
+		}
+		seen[k] = true
+		ks = append(ks, k)
+	}
+	return ks
+}
+
+type c11Pipe struct {
+	name   string
+	mro    string
+	expect interface{}
+	// relative fork directory of a stage -> the result its _outs must hold
+	dirs map[string]string
+	// stage directory -> the results its fork directories must hold (any names)
+	results map[string][]string
+}
+
+func forkDirName(k string) string { return "fork_" + url.PathEscape(k) }
+
+func strMap(keys []string, val func(string) interface{}) map[string]interface{} {
+	m := map[string]interface{}{}
+	for _, k := range keys {
+		m[k] = val(k)
+	}
+	return m
+}
+
+func c11GenPipe(r *hx.Rng, i int) c11Pipe {
+	shape := i % 8
+	keys := c11E2EKeys(r, 2+r.Intn(3))
+	adversarial := [][]string{{"a", "a/fork_b"}, {"b/fork_c", "c", "b"}}
+	switch shape {
+	case 0: // static map call over adversarial keys
+		return c11Pipe{"static_map", c11StageDefs + fmt.Sprintf(`
+pipeline P(
+    in  map<string> m,
+    out map<string> r,
+)
+{
+    map call ECHO(
+        what = split self.m,
+    )
+
+    return (
+        r = ECHO.result,
+    )
+}
+
+call P(
+    m = %s,
+)
+`, mroMap(keys, func(k string) string { return mroString("v:" + k) })),
+			map[string]interface{}{"r": strMap(keys, func(k string) interface{} { return "v:" + k })}, nil, nil}
+	case 1: // dynamic map call (keys known only at run time), chunked stage
+		n := hx.Pick(r, []int{1, 2, 10, 11})
+		ks, _ := json.Marshal(keys)
+		return c11Pipe{"dynamic_map_chunks", c11StageDefs + fmt.Sprintf(`
+pipeline P(
+    in  string[]    keys,
+    out map<string> r,
+)
+{
+    call GENMAP(
+        keys = self.keys,
+    )
+
+    map call CHUNKY(
+        what = split GENMAP.m,
+        n    = %d,
+    )
+
+    return (
+        r = CHUNKY.result,
+    )
+}
+
+call P(
+    keys = %s,
+)
+`, n, ks), map[string]interface{}{"r": strMap(keys, func(k string) interface{} { return "v:" + k })}, nil, nil}
+	case 2: // dynamic outer map x static inner map: the (a, b/fork_c) / (a/fork_b, c) family
+		return c11Nested("nested_map_adversarial", adversarial[0], adversarial[1])
+	case 3: // array of maps (static): array part followed by a map part
+		n := 2 + r.Intn(2)
+		var rows []string
+		var exp []interface{}
+		for j := 0; j < n; j++ {
+			jj := j
+			rows = append(rows, strings.ReplaceAll(mroMap(keys, func(k string) string { return mroString(strconv.Itoa(jj) + "|" + k) }), "\n", "\n    "))
+			exp = append(exp, strMap(keys, func(k string) interface{} { return strconv.Itoa(jj) + "|" + k }))
+		}
+		return c11Pipe{"static_array_of_maps", c11StageDefs + fmt.Sprintf(`
+pipeline INNER(
+    in  map<string> m,
+    out map<string> r,
+)
+{
+    map call ECHO(
+        what = split self.m,
+    )
+
+    return (
+        r = ECHO.result,
+    )
+}
+
+pipeline P(
+    in  map<string>[] ms,
+    out map<string>[] r,
+)
+{
+    map call INNER(
+        m = split self.ms,
+    )
+
+    return (
+        r = INNER.r,
+    )
+}
+
+call P(
+    ms = [
+        %s,
+    ],
+)
+`, strings.Join(rows, ",\n        ")), map[string]interface{}{"r": exp}, nil, nil}
+	case 4: // static array crossing a decimal width
+		n := hx.Pick(r, []int{9, 10, 11, 12})
+		var items []string
+		var exp []interface{}
+		for j := 0; j < n; j++ {
+			items = append(items, mroString("e"+strconv.Itoa(j)))
+			exp = append(exp, "e"+strconv.Itoa(j))
+		}
+		return c11Pipe{"static_array", c11StageDefs + fmt.Sprintf(`
+pipeline P(
+    in  string[] a,
+    out string[] r,
+)
+{
+    map call ECHO(
+        what = split self.a,
+    )
+
+    return (
+        r = ECHO.result,
+    )
+}
+
+call P(
+    a = [%s],
+)
+`, strings.Join(items, ", ")), map[string]interface{}{"r": exp}, nil, nil}
+	case 5: // dynamic array crossing a decimal width
+		n := hx.Pick(r, []int{2, 10, 11, 12})
+		var exp []interface{}
+		for j := 0; j < n; j++ {
+			exp = append(exp, "e"+strconv.Itoa(j))
+		}
+		return c11Pipe{"dynamic_array", c11StageDefs + fmt.Sprintf(`
+pipeline P(
+    in  int      n,
+    out string[] r,
+)
+{
+    call GENARR(
+        n = self.n,
+    )
+
+    map call ECHO(
+        what = split GENARR.a,
+    )
+
+    return (
+        r = ECHO.result,
+    )
+}
+
+call P(
+    n = %d,
+)
+`, n), map[string]interface{}{"r": exp}, nil, nil}
+	case 6: // dynamic outer array x static inner array
+		no, ni := hx.Pick(r, []int{2, 3, 11}), 2+r.Intn(2)
+		var items []string
+		var want []string
+		var exp []interface{}
+		for k := 0; k < ni; k++ {
+			items = append(items, mroString("i"+strconv.Itoa(k)))
+		}
+		for o := 0; o < no; o++ {
+			exp = append(exp, "e"+strconv.Itoa(o))
+			for k := 0; k < ni; k++ {
+				want = append(want, fmt.Sprintf("e%d|i%d", o, k))
+			}
+		}
+		return c11Pipe{name: "dynamic_outer_static_inner_arrays", mro: c11StageDefs + fmt.Sprintf(`
+pipeline INNER(
+    in  string   tag,
+    in  string[] m,
+    out string   r,
+)
+{
+    map call PAIR(
+        a = self.tag,
+        b = split self.m,
+    )
+
+    call ECHO(
+        what = self.tag,
+    )
+
+    return (
+        r = ECHO.result,
+    )
+}
+
+pipeline P(
+    in  int      n,
+    out string[] r,
+)
+{
+    call GENARR(
+        n = self.n,
+    )
+
+    map call INNER(
+        tag = split GENARR.a,
+        m   = [%s],
+    )
+
+    return (
+        r = INNER.r,
+    )
+}
+
+call P(
+    n = %d,
+)
+`, strings.Join(items, ", "), no), expect: map[string]interface{}{"r": exp},
+			results: map[string][]string{"P/INNER/PAIR": want}}
+	default: // dynamic outer map over a pipeline containing a static inner map call
+		return c11Nested("dynamic_outer_static_inner", keys, c11E2EKeys(r, 2+r.Intn(2)))
+	}
+}
+
+// c11Nested: the outer keys are only known at run time (dynamic fork
+// expansion), the inner map call is over a literal map; the inner stage
+// depends on both, so it has one fork per (outer, inner) pair.
+func c11Nested(name string, outer, inner []string) c11Pipe {
+	ks, _ := json.Marshal(outer)
+	dirs := map[string]string{}
+	for _, o := range outer {
+		for _, k := range inner {
+			dirs["P/INNER/PAIR/"+forkDirName(o)+"/"+forkDirName(k)] = "v:" + o + "|i:" + k
+		}
+	}
+	return c11Pipe{name, c11StageDefs + fmt.Sprintf(`
+pipeline INNER(
+    in  string      tag,
+    in  map<string> m,
+    out string      r,
+)
+{
+    map call PAIR(
+        a = self.tag,
+        b = split self.m,
+    )
+
+    call ECHO(
+        what = self.tag,
+    )
+
+    return (
+        r = ECHO.result,
+    )
+}
+
+pipeline P(
+    in  string[]    keys,
+    out map<string> r,
+)
+{
+    call GENMAP(
+        keys = self.keys,
+    )
+
+    map call INNER(
+        tag = split GENMAP.m,
+        m   = %s,
+    )
+
+    return (
+        r = INNER.r,
+    )
+}
+
+call P(
+    keys = %s,
+)
+`, strings.ReplaceAll(mroMap(inner, func(k string) string { return mroString("i:" + k) }), "\n", "\n    "), ks),
+		map[string]interface{}{"r": strMap(outer, func(k string) interface{} { return "v:" + k })}, dirs, nil}
+}
+
+func c11E2E(args []string) {
+	if len(args) < 3 {
+		fmt.Fprintln(os.Stderr, "usage: vh c11 e2e <dir> <seed> <n>")
+		os.Exit(2)
+	}
+	dir := args[0]
+	seed, _ := strconv.ParseUint(args[1], 10, 64)
+	n, _ := strconv.Atoi(args[2])
+	r := hx.NewRng(seed + 77)
+	work := filepath.Join(dir, "work")
+	for name, code := range c11StageCode {
+		d := filepath.Join(work, "stages", name)
+		if err := os.MkdirAll(d, 0o755); err != nil {
+			panic(err)
+		}
+		if err := os.WriteFile(filepath.Join(d, "__init__.py"), []byte(code), 0o644); err != nil {
+			panic(err)
+		}
+	}
+	w := hx.Out
+	for i := 0; i < n; i++ {
+		p := c11GenPipe(r, i)
+		psid := fmt.Sprintf("ps%d", i)
+		mroPath := filepath.Join(work, psid+".mro")
+		if err := os.WriteFile(mroPath, []byte(p.mro), 0o644); err != nil {
+			panic(err)
+		}
+		ctx, cancel := context.WithTimeout(context.Background(), 120*time.Second)
+		cmd := exec.CommandContext(ctx, filepath.Join(dir, "bin", "mrp"), psid+".mro", psid,
+			"--localcores=4", "--localmem=4", "--disable-ui")
+		cmd.Dir = work
+		cmd.Env = append(os.Environ(), "MROPATH="+work)
+		out, err := cmd.CombinedOutput()
+		cancel()
+		name := fmt.Sprintf("%s#%d", p.name, i)
+		if err != nil {
+			tail := string(out)
+			if len(tail) > 1500 {
+				tail = tail[len(tail)-1500:]
+			}
+			class := "e2e_" + p.name + "_incomplete"
+			fmt.Fprintf(w, "E2E %s %s %s: %v: %s\n", class, hx.H(p.mro), name, err, strings.ReplaceAll(tail, "\n", " / "))
+			w.Flush()
+			continue
+		}
+		raw, err := os.ReadFile(filepath.Join(work, psid, "P", "fork0", "_outs"))
+		var got interface{}
+		if err == nil {
+			err = json.Unmarshal(raw, &got)
+		}
+		dirProblem := ""
+		for d, want := range p.dirs {
+			var o struct {
+				Result string `json:"result"`
+			}
+			b, e := os.ReadFile(filepath.Join(work, psid, d, "_outs"))
+			if e == nil {
+				e = json.Unmarshal(b, &o)
+			}
+			if e != nil || o.Result != want {
+				dirProblem = fmt.Sprintf("fork directory %s: want result %q, got %q (%v)", d, want, o.Result, e)
+			}
+		}
+		for d, want := range p.results {
+			var got []string
+			filepath.Walk(filepath.Join(work, psid, d), func(path string, info os.FileInfo, err error) error {
+				if err != nil {
+					return nil
+				}
+				if info.IsDir() && path != filepath.Join(work, psid, d) && !strings.HasPrefix(info.Name(), "fork") {
+					return filepath.SkipDir
+				}
+				if info.Name() == "_outs" {
+					var o struct {
+						Result string `json:"result"`
+					}
+					if b, e := os.ReadFile(path); e == nil && json.Unmarshal(b, &o) == nil {
+						got = append(got, o.Result)
+					} else {
+						got = append(got, "<unreadable>")
+					}
+				}
+				return nil
+			})
+			sort.Strings(got)
+			w2 := append([]string(nil), want...)
+			sort.Strings(w2)
+			if !reflect.DeepEqual(got, w2) {
+				dirProblem = fmt.Sprintf("fork results under %s: want %q, got %q", d, w2, got)
+			}
+		}
+		if dirProblem != "" {
+			fmt.Fprintf(w, "E2E e2e_%s_wrong_fork_dir %s %s: %s\n", p.name, hx.H(p.mro), name, dirProblem)
+		} else if err != nil || !reflect.DeepEqual(got, p.expect) {
+			exp, _ := json.Marshal(p.expect)
+			fmt.Fprintf(w, "E2E e2e_%s_wrong_output %s %s: expected %s got %s\n", p.name, hx.H(p.mro), name, exp,
+				strings.Join(strings.Fields(string(raw)), " "))
+		} else {
+			fmt.Fprintf(w, "E2E ok %s\n", name)
+		}
+		w.Flush()
+		os.RemoveAll(filepath.Join(work, psid))
+	}
+}
